@@ -93,7 +93,7 @@ def replay_valid(k, c, full, mods, slot=0):
                 bad.append(("matrix_bincount2d/input-modified", {"dtype": dt, "layout": lo}))
     pairs = [(dx, dy) for dx in D8 for dy in D8] if full else \
         [[(D8[k % 8], D8[(k // 8) % 8]), (D8[(k + 3) % 8], D8[(k + 3) % 8]),
-          (D8[(k + 5) % 8], D8[(k // 8 + 3) % 8]), (D8[(k // 8 + 1) % 8], D8[(k + 6) % 8])][slot]]
+          (D8[(k + 5) % 8], D8[(k // 8 + 3) % 8]), (D8[(k // 8 + 1) % 8], D8[(k + 6) % 8])][slot % 4]]
     for pi, (dx, dy) in enumerate(pairs, start=slot):
         lo = LAYOUTS[(k + pi) % 4]
         a = lay(X, lo, dx)
@@ -466,6 +466,12 @@ def main():
     warnings.simplefilter("ignore")
     import logging
     logging.disable(logging.CRITICAL)
+    if os.environ.get("VERIF_ONE_CPU") == "1":
+        # more OpenMP threads than processors the process may run on: confine the process before the runtime loads
+        try:
+            os.sched_setaffinity(0, {sorted(os.sched_getaffinity(0))[0]})
+        except (AttributeError, OSError):
+            pass
     if os.environ.get("VERIF_POISON") == "1":
         # fresh numpy blocks are filled with 0xFF (a NaN pattern for floats, -1 for integers): a result that reads a
         # cell nobody wrote (the masked-out cells of np.log(p, where=p > 0) in the 0 log 0 = 0 convention) shows
